@@ -44,6 +44,7 @@ def run(ctx):
         r09_7(ctx, a)
         r09_8(ctx, a)
         r09_9(ctx, a)
+        r09_10(ctx, a)
         sites = [(blk, t) for blk, t in a.poll.built.calls() if wakers.is_poll_call(t)] + [(blk, t) for blk, t, c in wakers.local_poll_helper_calls(F, a.poll)]
         wakers.check_poll_fn(ctx, "R14.1", a.poll, sites)
     r09_6(ctx, ads)
@@ -376,4 +377,105 @@ def r09_9(ctx, a):
                              "`%s` can return Some(<empty list>) (the list starts empty and no push dominates the return): the poll function turns that into Ready(None) through extend_*_buf, ending the adapter's stream while the source is alive" % f.path)
         else:
             ctx.undecided("R09.9", f, "some-is-nonempty", where, "non-emptiness of `%s` not decided" % fmt(e, 3))
+    return n
+
+
+def r09_10(ctx, a):
+    """linear-form index check. The view index of source index I is I - start, with start = 0 for Head, = count for Skip
+    (on every path), and = 0 for Tail on every path that has established prev_len < limit (view not full, before and after
+    a single insertion because prev_len + 1 <= limit). The emitted index expression is normalised to a linear form under the
+    path assumptions and compared with that function."""
+    from .linear import Lin, sym, Normaliser, provable_nonneg
+    f = a.translator
+    b = f.built
+    LIMIT, PREV = 2, 3
+    sw, info, arms = arms_of(b)
+    emit_blocks = {}
+    for blk, kind, vs, e, cnt in emits(b):
+        if kind == "push":
+            emit_blocks[blk] = e
+
+    def symbols(e):
+        x = e
+        while x[0] in ("ref", "deref", "cast"):
+            x = x[1]
+        if x[0] == "param" and x[1] == LIMIT:
+            return "C" if a.name == "skip" else "L"
+        if x[0] == "param" and x[1] == PREV:
+            return "P"
+        if x[0] == "field" and x[2] in ("index", "length") and x[1][0] == "downcast":
+            return "I"
+        return None
+    I, P, L, C = sym("I"), sym("P"), sym("L"), sym("C")
+    base = [I, P]
+    n = 0
+    for v in ("Insert", "Set", "Remove") + (("Truncate",) if a.name != "tail" else ()):
+        if v not in arms:
+            continue
+        start = arms[v]
+        bound = [P - I] if v in ("Insert", "Truncate") else [P - I - Lin(const=1)]
+
+        def is_prev(e):
+            x = strip(e)
+            return x[0] == "param" and x[1] == PREV
+
+        def is_lim(e):
+            x = strip(e)
+            return x[0] == "param" and x[1] == LIMIT
+        results = []
+
+        def transfer(blk, st):
+            if blk in emit_blocks:
+                results.append((blk, st))
+            return [st]
+
+        def edge(bk, nx, st):
+            fs = conds.edge_facts(b, bk, nx)
+            if fs and a.name == "tail" and conds.cmp_holds(fs, "Lt", is_prev, is_lim):
+                return 1
+            return st
+        forward_states(b, 0, transfer, start=start, edge_filter=edge)
+        seen = set()
+        for blk, notfull in results:
+            if (blk, notfull) in seen:
+                continue
+            seen.add((blk, notfull))
+            if a.name == "tail" and not notfull:
+                continue  # full view: the start moves with the operation - arithmetic not decided
+            e = emit_blocks[blk]
+            for agg in find_all(e, lambda y: y[0] == "agg" and y[1] == "adt" and isinstance(y[2], str) and y[2].endswith("::VectorDiff")):
+                for name, op in zip(agg[4], agg[5]):
+                    if name not in ("index", "length") or agg[3] != v:
+                        continue
+                    n += 1
+                    assume = base + bound + ([L - P - Lin(const=1), L - Lin(const=1)] if a.name == "tail" else [L - Lin(const=1)] if a.name == "head" else [C])
+                    nz = Normaliser(b, symbols, assume)
+                    r = nz.nf(op)
+                    target = (I - C) if a.name == "skip" else I
+                    where = b.line_at((blk, 10 ** 6))
+                    cond = {"head": "always (the head view starts at 0)", "skip": "always (the skip view starts at `count`)", "tail": "on this path prev_len < limit (the tail view is the whole vector)"}[a.name]
+                    key = "%s.%s%s" % (agg[3], name, "|not-full" if a.name == "tail" else "")
+                    sat = nz.as_sat(r)
+                    if not r.opaque():
+                        d = r - target
+                        if d.is_const() and d.c == 0:
+                            ctx.holds("R09.10", f, key, where, "emitted %s = %s = %s, %s" % (name, fmt(op, 4), r, cond))
+                        elif d.is_const():
+                            ctx.violated("R09.10", f, key, where,
+                                         "%s translator, arm %s: %s the view %s of source %s I is `%s`, but the emitted expression `%s` normalises to `%s` (off by %d)" % (
+                                             a.name, v, cond, name, name, target, fmt(op, 4), r, d.c))
+                        else:
+                            ctx.undecided("R09.10", f, key, where, "normal form `%s` differs from `%s` symbolically" % (r, target))
+                    elif sat is not None:
+                        d = sat - target
+                        if d.is_const() and d.c < 0 and not provable_nonneg(-I, assume):
+                            ctx.violated("R09.10", f, key, where,
+                                         "%s translator, arm %s: %s the view %s must be `%s`, but the emitted expression `%s` normalises to `max(%s, 0)`, which is %d too small whenever I >= %d (nothing on this path forces I = 0)" % (
+                                             a.name, v, cond, name, target, fmt(op, 4), sat, -d.c, -d.c))
+                        elif d.is_const() and d.c == 0:
+                            ctx.holds("R09.10", f, key, where, "emitted %s = max(%s, 0) with %s >= 0" % (name, sat, sat))
+                        else:
+                            ctx.undecided("R09.10", f, key, where, "saturating form max(%s, 0) not comparable with %s" % (sat, target))
+                    else:
+                        ctx.undecided("R09.10", f, key, where, "expression not linear: %s (%s)" % (fmt(op, 4), "; ".join(nz.notes[:2])))
     return n
